@@ -10,7 +10,7 @@ From SV Require Import Names NamesFacts ListFacts Rep Fresh Complex Atomic RepIn
 From SV Require Import VInv CopyOk.
 
 From SV Require Closed Listing VInv VIso CpsGen ComposeFresh.
-From SV Require Import DeepcopyFrame DeepcopyContents FiltCopyFrame.
+From SV Require Import DeepcopyFrame DeepcopyContents FiltCopyFrame CtorFrame WorldOwn.
 
 Theorem C09_copy_is_fresh :
   forall hp src uid hp' r' x, copy_new hp src uid = (hp', r', x) ->
@@ -148,3 +148,18 @@ Theorem C09_filtration_copy_is_fresh :
   owned (f_rep c) /\ r_uid (f_rep c) = uid /\ forall h, fst h <> uid -> heap_get hp' h = heap_get hp h.
 Proof. exact f_copy_fresh. Qed.
 Print Assumptions C09_filtration_copy_is_fresh.
+
+(* the ownership invariant of worlds -- every complex bound to a variable (or underneath a
+   filtration) owns all its dictionaries, under an owner below the world's counter -- is kept by
+   creating a complex and by every derived-complex constructor, accepted or rejected: whatever
+   constructors produce has an owner of its own and hence (C09_different_owners_share_nothing)
+   shares no dictionary with anything else in the world *)
+Theorem C09_constructors_keep_world_ownership :
+  forall w c x w' o, ctor_result c = Some x -> exec w c = (w', o) -> wown w -> wown w'.
+Proof. exact ctor_keeps_wown. Qed.
+Print Assumptions C09_constructors_keep_world_ownership.
+
+Theorem C09_new_complex_keeps_world_ownership :
+  forall w v w' o, exec w (CNew v) = (w', o) -> wown w -> wown w'.
+Proof. exact new_keeps_wown. Qed.
+Print Assumptions C09_new_complex_keeps_world_ownership.
